@@ -21,6 +21,10 @@ out=["# Seeded changes and what catches them","",
 for id,m in rows:
     f=lambda s:s.replace('|','\\|').replace('\n',' ')
     out.append("| %s | %s | %s | %s | %s |"%(id,f(m['change']),f(m['needs_to_manifest']),f(m['detected_by']),f(m['note'])))
+out+=["","Regression after the last extensions (final tree, `tools/run_seeded.sh <id>`, 60 s budget): 25 stored changes re-run - the ones that",
+"had needed an extension in waves 3-5 plus six older ones (C18-10 C18-12 C13-10 C13-11 C12-11 C12-12 C17-12 C06-13 C06-8 C07-9 C12-8 C12-9",
+"C13-8 C14-7 C17-8 C18-7 C18-9 C05-8 C19-7 C11-2 C11-6 C16-2 C17-5 C18-1 C12-7): 25 of 25 detected by the check named in their meta.json.",
+"Earlier the same day, before the fifth wave: C06-1, C08-4 (both rebased after a fix) and C05-1..C05-7: detected."]
 out+=["","Reverting any `fix:` commit of /repo is a further mutant of the same kind; each was checked when the fix was made",
 "(the check that found the defect is red without the fix and green with it, see DESIGN.md 11.3).",""]
 open('/verif/SENSITIVITY.md','w').write("\n".join(out))
